@@ -173,7 +173,7 @@ class Case:
         self.written = []           # contents users wrote, in order
         self.cs_class = cs_class or CloudSync
         kinds = (self.cfg.get("L", "id"), self.cfg.get("R", "id"))
-        cs_flags = self.cfg.get("cs", (True, True))
+        cs_flags = self.cfg.get("cs", (False, False) if self.cfg.get("ci") else (True, True))
         filt = self.cfg.get("filter", False)
         self.prov = []
         for side in (LOCAL, REMOTE):
@@ -382,7 +382,8 @@ class Case:
             if op == "rename":
                 info = self._info(side, args[0])
                 dst = self.abspath(side, args[1])
-                if prov.info_path(dst) is not None:
+                there = prov.info_path(dst)
+                if there is not None and there.oid != info.oid:       # (same object: case-only rename)
                     raise InvalidTrace("rename: target exists")
                 if prov.is_subpath(info.path, dst):
                     raise InvalidTrace("rename: into own subtree")
@@ -411,6 +412,8 @@ class Case:
                 continue
             if fo.path.startswith(pre):
                 rel = fo.path[len(root.rstrip("/")):]
+                if self.cfg.get("ci"):
+                    rel = rel.lower()       # case-insensitive providers: trees are compared modulo case
                 out[rel] = None if fo.type == fo.DIR else bytes(fo.contents)
         return out
 
